@@ -23,6 +23,7 @@ import (
 	"errors"
 	"fmt"
 	"os"
+	"reflect"
 	"runtime/debug"
 	"strings"
 	"syscall"
@@ -40,6 +41,13 @@ import (
 )
 
 func TestMain(m *testing.M) { vr.Main(m) }
+
+func first(bs []rag.Boundary) any {
+	if len(bs) == 0 {
+		return nil
+	}
+	return bs[0]
+}
 
 // ---------------------------------------------------------------------------
 // helpers shared by the oracles
@@ -341,15 +349,25 @@ func checkSplitInner(c SplitCase) error {
 		for i, para := range strings.Split(c.Text, "\n\n") {
 			blocks = append(blocks, rag.ContentBlock{Type: model.ElementTypeParagraph, Text: para, Page: 1, Index: i})
 		}
-		var bounded []string
+		var bounded, again []string
+		var bs, before []rag.Boundary
 		if err := guarded("SplitToSize with boundaries", len(c.Text), func() {
-			bs := rag.NewBoundaryDetector().DetectBoundaries(blocks)
+			bs = rag.NewBoundaryDetector().DetectBoundaries(blocks)
+			before = append([]rag.Boundary(nil), bs...)
 			bounded = rag.NewSizeCalculatorWithConfig(cfg).SplitToSize(c.Text, bs)
+			// the boundaries are the caller's: computed once, they serve every further call
+			again = rag.NewSizeCalculatorWithConfig(cfg).SplitToSize(c.Text, bs)
 		}); err != nil {
 			return err
 		}
 		if err := checkPieces("SplitToSize with detected boundaries", bounded, c.Text, cfg); err != nil {
 			return err
+		}
+		if !reflect.DeepEqual(bs, before) {
+			return fmt.Errorf("SplitToSize changed the boundaries it was given (%d boundaries; e.g. first now %+v, was %+v)", len(bs), first(bs), first(before))
+		}
+		if !reflect.DeepEqual(again, bounded) {
+			return fmt.Errorf("SplitToSize called twice with the same text, limits and boundary slice gives different pieces: %d pieces %.80q ..., then %d pieces %.80q ...", len(bounded), bounded, len(again), again)
 		}
 	}
 	// the same text as the only paragraph of a one-page document
